@@ -62,6 +62,8 @@ pub fn gen_count_case(rng: &mut Rng, tier: &str, prop: &str) -> Case {
             "limit" => limit,
             "acgt" => rng.chance(1, 3),
             "delete" => !rng.chance(1, 4),
+            // seed of junk left in the output directory before the run (0 = clean)
+            "dirty" => if rng.chance(1, 6) { rng.range(1, 1 << 40) } else { 0 },
         },
         extra: vec![],
     }
@@ -145,6 +147,26 @@ impl Engine for C07 {
         let in_path = write_input(&dir, "in", &case.records, &case.container);
         let out_dir = dir.join("out");
         std::fs::create_dir_all(&out_dir).unwrap();
+        // "... and nothing else" must hold whatever an earlier count left in the
+        // directory: sometimes start from stale chunk files and a stale table
+        let dirty = case.params.get("dirty").and_then(|v| v.as_u64()).unwrap_or(0);
+        if dirty != 0 {
+            let mut r = Rng::new(dirty);
+            let parts = cfg.expected_parts(case.records.iter().map(|x| x.seq.len()).sum()) + 2;
+            for _ in 0..r.usize(1, 12) {
+                let p = r.range(0, parts);
+                let c = r.range(0, 6);
+                let mut body = String::new();
+                for _ in 0..r.usize(0, 5) {
+                    body.push_str(&format!("{}\t{}\n", r.below(1u64 << (2 * cfg.k.min(31))), r.range(1, 9)));
+                }
+                std::fs::write(out_dir.join(format!("temp_kmers.part_{p}_chunk_{c}")), body).unwrap();
+            }
+            if r.chance(1, 2) {
+                std::fs::write(out_dir.join("kmers.counts"), "1\t99\n2\t7\n").unwrap();
+            }
+            out.probe("dirty_output_directory", 1);
+        }
         let r = run_counter(&in_path, &out_dir, &cfg, &case.sched, &case.io, None, steps_for(case));
         out.absorb(&r, true);
         match &r.value {
@@ -172,7 +194,7 @@ impl Engine for C07 {
             }
         }
         let temps: Vec<&String> = listing.iter().filter(|n| n.starts_with("temp_kmers")).collect();
-        if cfg.delete && !temps.is_empty() {
+        if cfg.delete && !temps.is_empty() && dirty == 0 {
             out.fail(
                 "temp_left",
                 format!("{} temporary chunk files survive merge(delete=true), e.g. {}", temps.len(), temps[0]),
@@ -224,6 +246,7 @@ impl Engine for C07 {
             "partitions>=8",
             "same_kmer_contended",
             "acgt_rendering",
+            "dirty_output_directory",
         ]
     }
 
